@@ -26,6 +26,41 @@ class Injected(Exception):
     pass
 
 
+SPECIAL_REPS = ("nn_tied", "nn_dup", "pure_dup", "em_alias", "em_alias_pairs", "em_infmask", "em_infbound", "dual_nn_em", "em_memalias")
+
+
+def delegated_cases(seed, tier, prefixes, tag):
+    """cases of C09's own monitors (representation comparison on the special representations; failing call followed by a normal one) restricted
+    to the functionals whose names start with one of `prefixes` - used by the checks of the properties that own those functionals"""
+    out = []
+    k = 0
+    fns = [f for f in funcs.FUNCTIONALS if f.split(":")[0] in prefixes]
+    for fname in fns:
+        for rep in SPECIAL_REPS:
+            for r in range(1 if tier == "quick" else 4):
+                rng = random.Random(sub_seed(seed, tag, fname, rep, r))
+                if tier == "quick" and rng.random() < 0.5:
+                    continue
+                out.append({"group": "c09rep", "functional": fname, "rep": rep, "derived": (rep not in funcs.NN_REPS) and rng.random() < 0.5, "rg": [1, 1, 1],
+                            "d": rng.choice([2, 3, 4]), "s": rng.choice([0.3, 0.4]), "seed": sub_seed(seed, tag + "s", k)})
+                k += 1
+        for j, rep in enumerate(ABORT_REPS):
+            if (j + len(fname)) % 4 != 0 and tier == "quick":
+                continue
+            rng = random.Random(sub_seed(seed, tag + "a", fname, rep))
+            out.append({"group": "c09abort", "kind": "abort_reuse", "functional": fname, "rep": rep, "phase": rng.choice(["fwd", "bwd", "bwd", "bwd2"]),
+                        "kfrac": rng.random(), "d": rng.choice([2, 3]), "s": 0.4, "seed": sub_seed(seed, tag + "as", k)})
+            k += 1
+    return out
+
+
+def run_delegated(desc):
+    if desc["group"] == "c09abort":
+        return run_abort(desc)
+    from vf.props import c09
+    return c09.run_case(dict(desc, group=desc["functional"].split(":")[0]))
+
+
 def cases(seed, tier):
     out = []
     k = 0
